@@ -546,8 +546,14 @@ def parseTB (s : String) : Option (Option Nat × Option Nat × Option Nat) :=
 /-- the certificate-check flags of a `T…`/`B…` token (fields 4 and 5: CertificateCNCheck, CertificateNameCheck; "-" = not set) -/
 def parseTBcert (s : String) : Option (Option Nat × Option Nat) :=
   let f (t : String) : Option (Option Nat) := if t = "-" then some none else t.toNat?.map some
-  match (((s.drop 1).toString.splitOn ",").drop 3).mapM f with
+  match ((((s.drop 1).toString.splitOn ",").drop 3).take 2).mapM f with
   | some [a, b] => some (a, b)
+  | _ => none
+
+/-- the LoopPrevention field of a `T…`/`B…` token (field 6; "-" and 255 = not set) -/
+def parseTBloop (s : String) : Option (Option Nat) :=
+  match ((s.drop 1).toString.splitOn ",").drop 5 with
+  | [t] => if t = "-" || t = "255" then some none else t.toNat?.map some
   | _ => none
 
 /-- type, RetryCount and RetryInterval a discovered server ends up with: what its block says, else what the template block says,
@@ -627,7 +633,11 @@ def model (op : String) (args : List String) : String :=
       let cert := match parseTBcert T, parseTBcert B with
         | some (_, some tnc), some (bcn, bnc) => s!" cn={bcn.getD 0} nc={bnc.getD tnc}"
         | _, _ => ""
-      base ++ s!" type={t} rc={rc} ri={ri}" ++ cert
+      -- LoopPrevention: what the printed block says, else what the template block says (255 = said nowhere)
+      let lp := match parseTBloop T, parseTBloop B with
+        | some tlp, some blp => s!" lp={(blp.orElse fun _ => tlp).getD 255}"
+        | _, _ => ""
+      base ++ s!" type={t} rc={rc} ri={ri}" ++ cert ++ lp
     | none => "bad-op"
   | "addreq", [_, a, pa, b, pb] =>
     match ofHex a, pa.toNat?, ofHex b, pb.toNat? with
@@ -745,11 +755,18 @@ def spec (op : String) (args impl : List String) : String :=
        else
          -- C15: the subject CN is consulted only when CertificateCNCheck is on - for a discovered server: on in its printed block or
          -- in the template block; and the name check is not switched off unless one of the two says so
-         (match parseTBcert T, parseTBcert B, impl.drop 6 with
+         (match parseTBcert T, parseTBcert B, (impl.drop 6).take 2 with
           | some (tcn, tnc), some (bcn, bnc), [cn, nc] =>
             if cn = "cn=1" && bcn != some 1 && tcn != some 1 then "bad C15:discovered-server-consults-the-subject-CN-though-CertificateCNCheck-is-off"
             else if nc = "nc=0" && bnc != some 0 && tnc != some 0 then "bad C15:discovered-server-name-check-switched-off-though-nothing-says-so"
-            else "ok"
+            else
+              -- C13: LoopPrevention "for the server" - a discovered server is protected when its printed block or its template says so
+              (match parseTBloop T, parseTBloop B, impl.drop 8 with
+               | some tlp, some blp, [lp] =>
+                 if lp != s!"lp={(blp.orElse fun _ => tlp).getD 255}" then
+                   "bad C13:LoopPrevention-of-a-discovered-server-not-as-configured:" ++ lp
+                 else "ok"
+               | _, _, _ => "ok")
           | _, _, _ => "ok")
      | _, _ => "bad output-shape")
   | "dynroute", [i, a1, a2, _], impl =>
